@@ -1,22 +1,441 @@
-(* Tree/Sort.v — model of Element::cmp (impl Ord for Element, element.rs), decompose_item_name, CharacterData::cmp and
-   Attribute::cmp (chardata.rs / lib.rs), ElementRaw::sort (elementraw.rs) and AutosarModel::sort.
-   STUB: the interface below is fixed (Tree/Script2.v and the drivers use it); the bodies are placeholders until the
-   model is written.  MODEL ONLY: definitions, no proofs. *)
-From AV Require Import Base.Bytes Base.Outcome Hash.HashModel Tree.Heap Tree.Ops.
+(* Tree/Sort.v — model of Element::cmp (impl Ord for Element, element.rs), decompose_item_name, CharacterData::cmp
+   (chardata.rs), Attribute::cmp and the derived Ord of ElementContent (lib.rs), CharacterData::parse_integer::<u64>
+   (the part cmp uses), ElementRaw::sort (elementraw.rs), Element::sort and AutosarModel::sort.
+
+   Rust                                                model
+   --------------------------------------------------  ----------------------------------------------------------
+   impl Ord for Element :: cmp                         cmp_f (fuel) / elem_cmp : the seven stages, in the Rust's order
+     element_name().to_str().cmp(..)                     lex_cmp of the ElementName strings (byte-wise = str::cmp)
+     get_sub_element(Index)...parse_integer::<u64>()     index_key  (first child of that name; character_data rule)
+     item_name() x item_name() + decompose_item_name     name_cmp   (stage applies only if BOTH have a name)
+     get_sub_element(DefinitionRef)...string_value()     defref_key (stage applies only if BOTH have one)
+     attribute_value(Dest).enum_value()                  dest_key   (Some < None)
+     content.cmp(..).then(attributes.cmp(..))            content_cmp (slice Ord, derived Ord of ElementContent:
+                                                         Element(_) < CharacterData(_), Element by Element::cmp recursively,
+                                                         CharacterData by cdata_cmp) then attrs_cmp (Attribute::cmp:
+                                                         attrname.to_str() then content)
+   impl Ord for CharacterData                          cdata_cmp  (Enum < String < UnsignedInteger < Float)
+   decompose_item_name                                 decompose  (maximal ASCII digit suffix parsed as u64)
+   ElementRaw::sort                                    sort_f     (children first; find_sub_element(name, u32::MAX).unwrap();
+                                                         sort_by(indices.cmp.then(elem.cmp)))
+   slice::sort_by                                      ANY function srt (a Section variable of SortWith); theorems are
+                                                         stated for every srt with StableSort srt; `isort` (stable insertion
+                                                         sort) is the instance that runs.
+
+   The three places where the comparison was changed by `fix:` commits in /repo are collected in a `policy`:
+   [policy_cur] is the code as it stands (and what e_sort / elem_cmp use), [policy_v0] the code before the fixes
+   (kept for the refutation theorems C14_v0_* : the defects as found).
+
+   Element::cmp never changes the state and cannot fail, so it is modelled as a pure function of the world into `res`
+   (Pan only for a dangling node id / a name discriminant outside its string table, which have no Rust counterpart;
+   Fuel only on a cyclic heap, where the Rust recursion would not terminate).
+   The keys of both elements (name string, INDEX value, item name, DEFINITION-REF text, DEST string) are computed first,
+   then the stages run; the Rust computes each key just before its stage, which only matters for WHICH model-only Pan is
+   reported.  `a.then(b)` evaluates b before the call: content and attributes are both compared.
+
+   The comparator given to sort_by can only be applied to the elements when it is a function: ElementRaw::sort first
+   evaluates Element::cmp on every ordered pair of children (any Pan/Fuel among them is the result) and then sorts with the
+   resulting total function.  Since Element::cmp has no panic site in the Rust, this agrees with the Rust on every heap.
+
+   MODEL ONLY: definitions + Examples, no proofs (Tree/SortProofs*.v). *)
+From Coq Require Import Permutation.
+From AV Require Import Base.Bytes Base.Outcome Base.Radix Hash.HashModel Tree.Heap Tree.Ops.
 Open Scope string_scope.
+Open Scope list_scope.
 Open Scope N_scope.
+
+(* ------------------------------------------------------------------ std pieces *)
+(* Ordering::then *)
+Definition cthen (a b : comparison) : comparison := match a with Eq => b | _ => a end.
+
+(* u64 from text / value: CharacterData::parse_integer::<u64>.
+   (Value/CharData.v has the generic parse_integer over (signed, bits); this is its (false, 64) instance written over
+   Base/Radix.v so that the tree model does not depend on ZArith.) *)
+Definition parse_integer_u64 (d : cdata) : option N :=
+  match d with
+  | DString text =>
+    if bytes_eqb text [48] then Some 0
+    else match strip_prefix [48; 120] text with Some h => from_str_radix_u 64 16 h | None =>
+         match strip_prefix [48; 88] text with Some h => from_str_radix_u 64 16 h | None =>
+         match strip_prefix [48; 98] text with Some b => from_str_radix_u 64 2 b | None =>
+         match strip_prefix [48; 66] text with Some b => from_str_radix_u 64 2 b | None =>
+         match strip_prefix [48] text with Some o => from_str_radix_u 64 8 o | None =>
+         from_str_radix_u 64 10 text end end end end end
+  | DUInt v => Some v
+  | _ => None
+  end.
+
+(* f64 comparison on the bit patterns (f64::to_bits) *)
+Definition P63 : N := 9223372036854775808.
+Definition f64_mag (b : N) : N := b mod P63.
+Definition f64_nan (b : N) : bool := 9218868437227405312 <? f64_mag b.        (* exponent all ones, fraction non-zero *)
+(* monotone key of a non-NaN value: -0 and +0 share a key *)
+Definition f64_key (b : N) : N :=
+  if f64_mag b =? 0 then P63 else if b <? P63 then P63 + f64_mag b else P63 - f64_mag b.
+(* f64::partial_cmp *)
+Definition f64_partial_cmp (a b : N) : option comparison :=
+  if f64_nan a || f64_nan b then None else Some (f64_key a ?= f64_key b).
+(* f64::total_cmp *)
+Definition f64_total_key (b : N) : N := if b <? P63 then P63 + b else P63 - 1 - f64_mag b.
+Definition f64_total_cmp (a b : N) : comparison := f64_total_key a ?= f64_total_key b.
+
+(* ------------------------------------------------------------------ decompose_item_name *)
+Definition is_digit (c : N) : bool := (48 <=? c) && (c <=? 57).
+
+(* name = base ++ digits, digits the maximal suffix of ASCII digits (the `while pos > 0 && is_ascii_digit` loop) *)
+Fixpoint split_digits (s : list N) : list N * list N :=
+  match s with
+  | [] => ([], [])
+  | c :: r =>
+    let (b, d) := split_digits r in
+    match b with
+    | [] => if is_digit c then ([], c :: d) else ([c], d)
+    | _ :: _ => (c :: b, d)
+    end
+  end.
+
+(* name[pos..].parse::<u64>() : Err on the empty string and on overflow *)
+Definition decompose (name : list N) : option (list N * N) :=
+  let (b, d) := split_digits name in
+  match from_str_radix_u 64 10 d with Some i => Some (b, i) | None => None end.
+
+(* the item-name stage for two names BEFORE fix C14-name-cycle:
+   both decompose and the bases are equal -> numeric suffixes, then (or otherwise) the full names as strings *)
+Definition name_cmp_v0 (n1 n2 : list N) : comparison :=
+  match decompose n1, decompose n2 with
+  | Some (b1, i1), Some (b2, i2) =>
+    if list_eqbN b1 b2 then match i1 ?= i2 with Eq => lex_cmp n1 n2 | c => c end else lex_cmp n1 n2
+  | _, _ => lex_cmp n1 n2
+  end.
+
+(* ... and as the code stands: (base, Option<index>, full name) lexicographically, a name that does not decompose being
+   its own base with no index (None < Some) *)
+Definition name_key (n : list N) : list N * option N :=
+  match decompose n with Some (b, i) => (b, Some i) | None => (n, None) end.
+Definition opt_cmp {K} (kc : K -> K -> comparison) (a b : option K) : comparison :=   (* derived Ord of Option: None < Some *)
+  match a, b with
+  | None, None => Eq | None, Some _ => Lt | Some _, None => Gt | Some x, Some y => kc x y
+  end.
+Definition name_cmp (n1 n2 : list N) : comparison :=
+  let (b1, i1) := name_key n1 in let (b2, i2) := name_key n2 in
+  cthen (lex_cmp b1 b2) (cthen (opt_cmp N.compare i1 i2) (lex_cmp n1 n2)).
+
+(* ------------------------------------------------------------------ StableSort: what is assumed of slice::sort_by *)
+Definition eqv {A} (c : A -> A -> comparison) (x y : A) : bool := match c x y with Eq => true | _ => false end.
+Definition leb {A} (c : A -> A -> comparison) (x y : A) : bool := match c x y with Gt => false | _ => true end.
+
+(* c is a total preorder on the members of l *)
+Record TotalPreorderOn {A} (c : A -> A -> comparison) (P : A -> Prop) : Prop := {
+  tp_refl : forall x, P x -> c x x = Eq;
+  tp_swap : forall x y, P x -> P y -> c y x = CompOpp (c x y);
+  tp_trans : forall x y z, P x -> P y -> P z -> c x y <> Gt -> c y z <> Gt -> c x z <> Gt
+}.
+
+Fixpoint sorted_by {A} (c : A -> A -> comparison) (l : list A) : Prop :=
+  match l with
+  | [] => True
+  | x :: r => (forall y, In y r -> c x y <> Gt) /\ sorted_by c r
+  end.
+
+Definition StableSort (srt : forall A, (A -> A -> comparison) -> list A -> list A) : Prop :=
+  forall A (c : A -> A -> comparison) (l : list A),
+    Permutation l (srt A c l) /\
+    (TotalPreorderOn c (fun x => In x l) ->
+       sorted_by c (srt A c l) /\
+       forall x, In x l -> filter (eqv c x) (srt A c l) = filter (eqv c x) l).
+
+(* the instance that runs: the insertion sort slice::sort_by itself uses for up to 20 elements
+   (core::slice::sort::shared::smallsort::insertion_sort_shift_left): the sorted prefix grows from the left, the next
+   element moves left past every element it is Less than.  `racc` is the sorted prefix REVERSED. *)
+Fixpoint ins_left {A} (c : A -> A -> comparison) (x : A) (racc : list A) : list A :=
+  match racc with
+  | [] => [x]
+  | y :: r => match c x y with Lt => y :: ins_left c x r | _ => x :: racc end
+  end.
+Definition isort {A} (c : A -> A -> comparison) (l : list A) : list A :=
+  rev (fold_left (fun racc x => ins_left c x racc) l []).
+Definition isort_poly : forall A, (A -> A -> comparison) -> list A -> list A := @isort.
+
+(* ------------------------------------------------------------------ the three repaired places *)
+Record policy := {
+  p_name : list N -> list N -> comparison;   (* two item names *)
+  p_both_only : bool;                        (* item-name / DEFINITION-REF stage: true = compared only when BOTH elements have
+                                                the key, skipped otherwise; false = like INDEX and DEST: present sorts first *)
+  p_float : N -> N -> comparison             (* two f64 values (bits) *)
+}.
+(* before the fixes: cyclic names, skipped stages, partial_cmp().unwrap_or(Equal) *)
+Definition policy_v0 : policy :=
+  {| p_name := name_cmp_v0; p_both_only := true;
+     p_float := fun a b => match f64_partial_cmp a b with Some c => c | None => Eq end |}.
+(* the code as it stands *)
+Definition policy_cur : policy := {| p_name := name_cmp; p_both_only := false; p_float := f64_total_cmp |}.
 
 Section Sort.
 Variable T : tables.
-Variable tab_el tab_en : nametab.
+Variable tab_el tab_at tab_en : nametab.
 Variable name_index name_definition_ref : N.     (* ElementName::Index, ElementName::DefinitionRef *)
 
+(* a stage either decides (Some c) or lets the next one run (None) *)
+Definition decided (c : comparison) : option comparison := match c with Eq => None | _ => Some c end.
+(* (Some, Some) compare - Equal continues; (Some, None) Less; (None, Some) Greater; (None, None) continue *)
+Definition stage_present {K} (kc : K -> K -> comparison) (a b : option K) : option comparison :=
+  match a, b with
+  | Some x, Some y => decided (kc x y)
+  | Some _, None => Some Lt
+  | None, Some _ => Some Gt
+  | None, None => None
+  end.
+(* compared only when both are present, skipped otherwise *)
+Definition stage_both {K} (kc : K -> K -> comparison) (a b : option K) : option comparison :=
+  match a, b with
+  | Some x, Some y => decided (kc x y)
+  | _, _ => None
+  end.
+Definition stage_opt {K} (both_only : bool) (kc : K -> K -> comparison) (a b : option K) : option comparison :=
+  if both_only then stage_both kc a b else stage_present kc a b.
+(* first deciding stage *)
+Definition orelse (a : option comparison) (b : option comparison) : option comparison :=
+  match a with Some _ => a | None => b end.
+
+(* <[T] as Ord>::cmp : element-wise up to the shorter length, then the lengths *)
+Fixpoint slice_cmp {A} (ec : A -> A -> res comparison) (x y : list A) : res comparison :=
+  match x, y with
+  | [], [] => Val Eq
+  | [], _ :: _ => Val Lt
+  | _ :: _, [] => Val Gt
+  | i :: x', j :: y' =>
+    (let* c := ec i j in match c with Eq => slice_cmp ec x' y' | _ => Val c end)%res
+  end.
+
+(* what the first five stages look at *)
+Record nkeys := mkKeys {
+  k_name : list N;                 (* element_name().to_str() *)
+  k_index : option N;              (* INDEX sub-element parsed as u64 *)
+  k_iname : option (list N);       (* item_name() *)
+  k_defref : option (list N);      (* DEFINITION-REF text *)
+  k_dest : option (list N)         (* DEST attribute, as the EnumItem string *)
+}.
+
+Section Cmp.
+Variable pol : policy.
+
+(* stages 1-5 *)
+Definition head_stages (a b : nkeys) : option comparison :=
+  orelse (decided (lex_cmp (k_name a) (k_name b)))
+ (orelse (stage_present N.compare (k_index a) (k_index b))
+ (orelse (stage_opt (p_both_only pol) (p_name pol) (k_iname a) (k_iname b))
+ (orelse (stage_opt (p_both_only pol) lex_cmp (k_defref a) (k_defref b))
+         (stage_present lex_cmp (k_dest a) (k_dest b))))).
+
+(* impl Ord for CharacterData *)
+Definition cdata_cmp (a b : cdata) : res comparison :=
+  match a, b with
+  | DEnum x, DEnum y =>
+    (let* sx := unwrap "EnumItem::to_str" (to_str tab_en x) in
+     let* sy := unwrap "EnumItem::to_str" (to_str tab_en y) in Val (lex_cmp sx sy))%res
+  | DString x, DString y => Val (lex_cmp x y)
+  | DUInt x, DUInt y => Val (x ?= y)
+  | DFloat x, DFloat y => Val (p_float pol x y)
+  | DEnum _, _ => Val Lt
+  | DString _, DEnum _ => Val Gt
+  | DString _, _ => Val Lt
+  | DUInt _, DEnum _ => Val Gt
+  | DUInt _, DString _ => Val Gt
+  | DUInt _, _ => Val Lt
+  | DFloat _, _ => Val Gt
+  end.
+
+(* impl Ord for Attribute *)
+Definition attr_cmp (a b : N * cdata) : res comparison :=
+  (let* sa := unwrap "AttributeName::to_str" (to_str tab_at (fst a)) in
+   let* sb := unwrap "AttributeName::to_str" (to_str tab_at (fst b)) in
+   let* vc := cdata_cmp (snd a) (snd b) in
+   Val (cthen (lex_cmp sa sb) vc))%res.
+
+(* derived Ord of ElementContent: the variant order Element < CharacterData, then the payload *)
+Definition item_cmp (ce : id -> id -> res comparison) (i j : citem) : res comparison :=
+  match i, j with
+  | CElem a, CElem b => ce a b
+  | CElem _, CData _ => Val Lt
+  | CData _, CElem _ => Val Gt
+  | CData d, CData e => cdata_cmp d e
+  end.
+
+Section Pure.
+Variable w : world.
+
+Definition nd (i : id) : res node := unwrap "dangling node id" (w_nodes w i).
+
+(* Element::get_sub_element: the first sub-element with that name *)
+Fixpoint first_named_p (name : N) (l : list citem) : res (option id) :=
+  match l with
+  | [] => Val None
+  | CElem c :: rest => (let* cn := nd c in if n_name cn =? name then Val (Some c) else first_named_p name rest)%res
+  | CData _ :: rest => first_named_p name rest
+  end.
+
+(* get_sub_element(name).and_then(|e| e.character_data()) *)
+Definition sub_cdata (n : node) (name : N) : res (option cdata) :=
+  (let* s := first_named_p name (n_content n) in
+   match s with
+   | None => Val None
+   | Some c => let* cn := nd c in character_data T cn
+   end)%res.
+
+(* Element::item_name (the pure reading of Ops.item_name) *)
+Definition item_name_p (n : node) : res (option (list N)) :=
+  (let* named := is_named T (n_type n) in
+   if negb named then Val None else
+   match n_content n with
+   | CElem s :: _ =>
+     let* sn := nd s in
+     if n_name sn =? name_short_name T then
+       let* cd := character_data T sn in
+       Val (match cd with Some (DString nm) => Some nm | _ => None end)
+     else Val None
+   | _ => Val None
+   end)%res.
+
+Definition index_key (n : node) : res (option N) :=
+  (let* cd := sub_cdata n name_index in
+   Val (match cd with Some d => parse_integer_u64 d | None => None end))%res.
+
+Definition defref_key (n : node) : res (option (list N)) :=
+  (let* cd := sub_cdata n name_definition_ref in
+   Val (match cd with Some (DString s) => Some s | _ => None end))%res.
+
+(* attribute_value(Dest).and_then(enum_value), as the string the code compares *)
+Definition dest_key (n : node) : res (option (list N)) :=
+  match attr_value n (attr_dest T) with
+  | Some (DEnum e) => (let* s := unwrap "EnumItem::to_str" (to_str tab_en e) in Val (Some s))%res
+  | _ => Val None
+  end.
+
+Definition node_keys (n : node) : res nkeys :=
+  (let* s := unwrap "ElementName::to_str" (to_str tab_el (n_name n)) in
+   let* i := index_key n in
+   let* m := item_name_p n in
+   let* d := defref_key n in
+   let* t := dest_key n in
+   Val (mkKeys s i m d t))%res.
+
+Fixpoint cmp_f (fuel : nat) (a b : id) {struct fuel} : res comparison :=
+  match fuel with
+  | O => Fuel
+  | S f =>
+    (let* na := nd a in
+     let* nb := nd b in
+     let* ka := node_keys na in
+     let* kb := node_keys nb in
+     match head_stages ka kb with
+     | Some c => Val c
+     | None =>
+       let* cc := slice_cmp (item_cmp (cmp_f f)) (n_content na) (n_content nb) in
+       let* ac := slice_cmp attr_cmp (n_attrs na) (n_attrs nb) in
+       Val (cthen cc ac)
+     end)%res
+  end.
+
+Definition cmp_p (a b : id) : res comparison := cmp_f (S (N.to_nat (w_next w))) a b.
+
+End Pure.
+End Cmp.
+
+Definition wpure {A} (f : world -> res A) : W A :=
+  fun w => match f w with Val a => Val (OK a, w) | Pan s => Pan s | Fuel => Fuel end.
+
 (* Element::cmp(a, b) *)
-Definition elem_cmp (a b : id) : W comparison :=
-  let _ := (T, tab_el, tab_en, name_index, name_definition_ref) in wpanic "UNMODELLED: Element::cmp".
+Definition elem_cmp (a b : id) : W comparison := wpure (fun w => cmp_p policy_cur w a b).
+
+(* ------------------------------------------------------------------ ElementRaw::sort *)
+(* the comparator of sort_by: |(ia, a), (ib, b)| ia.cmp(ib).then(a.cmp(b)) with Element::cmp read off a total function *)
+Definition key_cmp (ce : id -> id -> comparison) (x y : list N * id) : comparison :=
+  cthen (lex_cmp (fst x) (fst y)) (ce (snd x) (snd y)).
+
+(* Element::cmp on all ordered pairs: the first Pan / Fuel, else tt *)
+Fixpoint row_val (w : world) (x : id) (ys : list id) : res unit :=
+  match ys with [] => Val tt | y :: l' => (let* _ := cmp_p policy_cur w x y in row_val w x l')%res end.
+Fixpoint all_pairs_val (w : world) (xs ys : list id) : res unit :=
+  match xs with
+  | [] => Val tt
+  | x :: xs' => (let* _ := row_val w x ys in all_pairs_val w xs' ys)%res
+  end.
+
+Definition cmp_total (w : world) (a b : id) : comparison :=
+  match cmp_p policy_cur w a b with Val c => c | _ => Eq end.
+
+(* `for ec_elem in &self.content { if let Element(elem) = ec_elem { elem.sort(); find_sub_element(..).unwrap() ... } }`
+   with `rec` = Element::sort of a child *)
+Fixpoint keyed_loop (rec : id -> W unit) (ty : N * N) (l : list citem) : W (list (list N * id)) :=
+  match l with
+  | [] => wret []
+  | CData _ :: rest => keyed_loop rec ty rest
+  | CElem c :: rest =>
+    (do _ <- rec c;
+     do cn <- get_node c;
+     do fs <- wl (find_sub_element T ty (n_name cn) 4294967295);
+     match fs with
+     | None => wpanic "elementraw.rs sort: find_sub_element(elem.element_name(), u32::MAX).unwrap()"
+     | Some (_, idx) => do more <- keyed_loop rec ty rest; wret ((idx, c) :: more)
+     end)%W
+  end.
+(* the else branch: only descend *)
+Fixpoint iter_loop (rec : id -> W unit) (l : list citem) : W unit :=
+  match l with
+  | [] => wret tt
+  | CData _ :: rest => iter_loop rec rest
+  | CElem c :: rest => (do _ <- rec c; iter_loop rec rest)%W
+  end.
+
+Section SortWith.
+Variable srt : forall A, (A -> A -> comparison) -> list A -> list A.
+
+Fixpoint sort_f (fuel : nat) (i : id) {struct fuel} : W unit :=
+  match fuel with
+  | O => wfuel
+  | S f =>
+    (do n <- get_node i;
+     do mode <- wl (content_mode T (n_type n));
+     if (mode =? MCharacters) || (mode =? MMixed) then wret tt else
+     do ordered <- wl (is_ordered T (n_type n));
+     if negb ordered && (1 <? N.of_nat (List.length (n_content n))) then
+       do keyed <- keyed_loop (sort_f f) (n_type n) (n_content n);
+       do w <- wget;
+       do _ <- wl (all_pairs_val w (map snd keyed) (map snd keyed));
+       let sorted := srt _ (key_cmp (cmp_total w)) keyed in
+       modify_node i (fun n' => set_content n' (map (fun k => CElem (snd k)) sorted))
+     else iter_loop (sort_f f) (n_content n))%W
+  end.
+
+Definition e_sort_with (i : id) : W unit := (do w <- wget; sort_f (fuel_of w) i)%W.
+Definition m_sort_with (m : N) : W unit := (do x <- get_model m; e_sort_with (m_root x))%W.
+End SortWith.
+
 (* Element::sort *)
-Definition e_sort (i : id) : W unit :=
-  let _ := (T, tab_el, tab_en, name_index, name_definition_ref) in wpanic "UNMODELLED: Element::sort".
+Definition e_sort (i : id) : W unit := e_sort_with isort_poly i.
 (* AutosarModel::sort *)
-Definition m_sort (m : N) : W unit := (do x <- get_model m; e_sort (m_root x))%W.
+Definition m_sort (m : N) : W unit := m_sort_with isort_poly m.
 End Sort.
+
+(* ------------------------------------------------------------------ Examples *)
+Example ex_decompose_1 : decompose (BS "item123") = Some (BS "item", 123). Proof. vm_compute. reflexivity. Qed.
+Example ex_decompose_2 : decompose (BS "a1b") = None. Proof. vm_compute. reflexivity. Qed.
+Example ex_decompose_3 : decompose (BS "42") = Some ([], 42). Proof. vm_compute. reflexivity. Qed.
+Example ex_decompose_4 : decompose (BS "a99999999999999999999") = None. Proof. vm_compute. reflexivity. Qed.
+Example ex_name_cycle_v0 :
+  name_cmp_v0 (BS "a2") (BS "a10") = Lt /\ name_cmp_v0 (BS "a10") (BS "a1b") = Lt /\ name_cmp_v0 (BS "a1b") (BS "a2") = Lt.
+Proof. vm_compute. repeat split. Qed.
+Example ex_name_cmp :
+  map (fun p => name_cmp (BS (fst p)) (BS (snd p)))
+      [("a2", "a10"); ("a10", "a1b"); ("a2", "a1b"); ("a01", "a1"); ("Mmm_9", "Mmm_10"); ("a", "a1"); ("a_1", "a1"); ("b", "a2")]
+  = [Lt; Lt; Lt; Lt; Lt; Lt; Gt; Gt].
+Proof. vm_compute. reflexivity. Qed.
+Example ex_parse_int : map parse_integer_u64 [DString (BS "06"); DString (BS "0X4"); DString (BS "0b1"); DString (BS "0B10");
+                                               DString (BS "0"); DString (BS "x"); DUInt 7; DEnum 1; DString (BS "08")]
+                       = [Some 6; Some 4; Some 1; Some 2; Some 0; None; Some 7; None; None].
+Proof. vm_compute. reflexivity. Qed.
+Example ex_f64 : (f64_partial_cmp 0 P63, f64_partial_cmp 4607182418800017408 4611686018427387904,
+                  f64_partial_cmp 13830554455654793216 4607182418800017408, f64_partial_cmp 9221120237041090560 0)
+                 = (Some Eq, Some Lt, Some Lt, None).
+Proof. vm_compute. reflexivity. Qed.
+Example ex_isort : isort N.compare [3; 1; 2; 1] = [1; 1; 2; 3]. Proof. vm_compute. reflexivity. Qed.
